@@ -339,6 +339,33 @@ func runC13(c *core.Ctx) {
 		res.Sample("catalogue", 1, map[string]string{"entry": cat[1].Entry, "input": cat[1*23].Desc})
 	}
 
+	// ---- (a2) rules whose answer depends on the world outside the process: file / dir over paths of every kind
+	if c.Shard == 0 {
+		tree := filepath.Join(c.WorkDir, "c13tree")
+		os.MkdirAll(filepath.Join(tree, "sub"), 0o755)
+		reg := filepath.Join(tree, "f.txt")
+		os.WriteFile(reg, []byte("x"), 0o644)
+		os.Symlink(reg, filepath.Join(tree, "ln-file"))
+		os.Symlink(filepath.Join(tree, "sub"), filepath.Join(tree, "ln-dir"))
+		os.Symlink(filepath.Join(tree, "nowhere"), filepath.Join(tree, "ln-dangling"))
+		os.Symlink(filepath.Join(tree, "loop"), filepath.Join(tree, "loop"))
+		paths := []string{reg, tree, filepath.Join(tree, "sub"), filepath.Join(tree, "missing"), reg + "/x", filepath.Join(tree, "ln-file"), filepath.Join(tree, "ln-dir"), filepath.Join(tree, "ln-dangling"), filepath.Join(tree, "loop"),
+			"/", ".", "..", "/dev/null", "/proc/self/mem", tree + "/", reg + "/", strings.Repeat("a/", 3000), tree + "/" + strings.Repeat("n", 300), "f\x00", "~", "file://" + reg}
+		for _, rule := range []string{"file", "dir", "file|not a file", "dir|不是目录", "file,dir", "dir,file|m", "required,dir", "dir,to=1~2"} {
+			for _, pth := range paths {
+				desc := fmt.Sprintf("rule %q on path %q", rule, trunc(pth, 80))
+				c.Journal("world %s", desc)
+				for _, cr := range []string{drive.Var, drive.StructRM, drive.MapT, drive.UrlEnc} {
+					if out, ok := drive.Carry(cr, reflect.ValueOf(pth), rule); ok {
+						c13Report(res, cr, desc, out)
+						res.Count("file_dir_calls_on_real_paths")
+					}
+				}
+				res.DistinctEnum(1)
+			}
+		}
+	}
+
 	// ---- (b) grammar-aware rule mutation
 	muts := c13RuleMutations()
 	vals := c13Values()
